@@ -10,6 +10,7 @@ EXPLANATION = (
     "call is tolerant by API, or handled by a non-re-raising handler locally, or in every caller chain up to the public "
     "Memory API (call-graph closure over memory.py, _store_backends.py, disk.py). Interleavings are not enumerated: the "
     "clause is the necessary condition that no unprotected window exists in the text."
+    ' Reads of the shared in-memory table of validated functions tolerate a concurrent removal (no check-then-act).'
 )
 ASSUMPTIONS = [
     "os.replace is atomic; os.path.exists / os.walk / rmtree(ignore_errors=True) do not raise for vanished paths",
